@@ -133,6 +133,9 @@ RENAMINGS = [
     lambda cs: {c: n for c, n in zip(cs, ['x', 'x-3', 'x-6'])},                              # a name + the text of a time = another name + another time
     lambda cs: {c: n for c, n in zip(cs, ['LSZH-12', 'LSZH', 'LSZH-9'])},
     lambda cs: {c: n for c, n in zip(cs, ['1', '1-1', '1-15'])},
+    lambda cs: {c: n for c, n in zip(cs, ['08', '7', '10'])},                                # numeric names that are not the canonical spelling of their value
+    lambda cs: {c: n for c, n in zip(cs, ['007', '10', '9'])},
+    lambda cs: {c: n for c, n in zip(cs, ['01', '1', '001'])},
     lambda cs: {c: n for c, n in zip(cs, ['nan', 'None', ''])} if len(cs) < 3 else {c: n for c, n in zip(cs, ['nan', 'None', 'NA'])},
 ]
 
